@@ -122,6 +122,33 @@ theorem encodedGrowth_le (ts : List Tx) (h : ∀ t ∈ ts, t.size < 2 ^ 28) :
     simp only [encodedGrowth, sizeSum, List.map_cons, List.sum_cons, List.length_cons] at *
     omega
 
+theorem addTxs_replicate (maxTx : Int) (bound : Nat) (t : Tx) (hb : t.blocked = false) :
+    ∀ (n : Nat) (count : Int) (size : Nat), count + n ≤ maxTx → size + n * t.size ≤ bound →
+      addTxs true maxTx bound count size (List.replicate n (.single t)) = List.replicate n t := by
+  intro n
+  induction n with
+  | zero => intro count size _ _; rfl
+  | succ k ih =>
+    intro count size hc hs
+    rw [List.replicate_succ, addTxs]
+    have h1 : ¬ count + 1 > maxTx := by omega
+    have h2 : ¬ size + t.size > bound := by
+      have : (k + 1) * t.size = k * t.size + t.size := by rw [Nat.add_mul]; simp
+      omega
+    simp only [hb, Bool.and_false, Bool.false_eq_true, if_false, h1, h2]
+    rw [ih (count + 1) (size + t.size) (by omega) (by
+      have : (k + 1) * t.size = k * t.size + t.size := by rw [Nat.add_mul]; simp
+      omega)]
+    rfl
+
+theorem encodedGrowth_replicate (t : Tx) (n : Nat) :
+    encodedGrowth (List.replicate n t) = n * framed t.size := by
+  induction n with
+  | zero => simp [encodedGrowth]
+  | succ k ih =>
+    simp only [encodedGrowth] at ih ⊢
+    rw [List.replicate_succ, List.map_cons, List.sum_cons, ih, Nat.add_mul]; omega
+
 /-! ### structure of the result: whole entries, in order -/
 
 /-- entries an `addTxs` run takes -/
